@@ -1,5 +1,5 @@
 (* C09 — file mode, owner, mtime and hard links survive replacement. *)
-From AD Require Import Bytes Outcome Fs Helper HelperProofs.
+From AD Require Import Bytes Outcome Fs Helper HelperProofs Config Walk WalkProofs.
 
 (* Whenever a real run reports Replaced for a single-link file — whichever handler, whatever its shape,
    even with a single injected fault — the path names a NEW regular inode whose content is the
@@ -23,5 +23,36 @@ Theorem C09_order_matters :
   option_map i_mode (inodes (apply_ops e f [OLchown [116] 0 0; OFchmod 5 3565]) 5) = Some 3565.
 Proof. exact chmod_then_chown_loses_setid. Qed.
 
+(* each inode is transformed once however many paths reach it:
+   (1) process_file never selects (runs) a handler whose bit is already set for the inode;
+   (2) with all handler bits set, an entry causes no operation at all;
+   (3) after an entry, the handlers just applied are recorded for its inode, and for the inode the path names
+       afterwards when the file was replaced; no other inode's record changes *)
+Theorem C09_once_skip : forall e fault m prof hs n already p s sel acc k,
+  (forall j, N.testbit sel j = true -> N.testbit already j = false) ->
+  N.testbit (snd (fst (process_file_from e fault m prof hs n already p s sel acc))) k = true ->
+  N.testbit already k = false.
+Proof. exact pff_selected_fresh. Qed.
+
+Theorem C09_once_all_seen : forall e fault m prof hs n already p s sel acc,
+  (forall k, (k < length hs)%nat -> N.testbit already (n + N.of_nat k) = true) ->
+  process_file_from e fault m prof hs n already p s sel acc = (s, sel, Some acc).
+Proof. exact pff_all_seen. Qed.
+
+Theorem C09_once_record : forall e fault m prof hs w p w' ino nd,
+  process_entry e fault m prof hs w p = Some w' ->
+  is_tmp_name (basename p) = false -> obs (s_fs (w_sim w)) p = Some (ino, nd) -> i_kind nd = KReg ->
+  exists sel c s',
+    process_file_from e fault m prof hs 0 (w_seen w ino) p (w_sim w) 0 Ignored = (s', sel, Some c) /\
+    (forall k, N.testbit sel k = true -> N.testbit (w_seen w ino) k = false) /\
+    let mask := N.lor (w_seen w ino) sel in
+    (forall ino2 nd2, obs (s_fs s') p = Some (ino2, nd2) -> c <> Noop -> w_seen w' ino2 = mask) /\
+    ((forall ino2 nd2, obs (s_fs s') p = Some (ino2, nd2) -> ino2 = ino) \/ c = Noop \/ obs (s_fs s') p = None -> w_seen w' ino = mask) /\
+    (forall j, j <> ino -> (forall nd2, obs (s_fs s') p <> Some (j, nd2)) -> w_seen w' j = w_seen w j).
+Proof. exact entry_records_mask. Qed.
+
 Print Assumptions C09_replace.
+Print Assumptions C09_once_skip.
+Print Assumptions C09_once_all_seen.
+Print Assumptions C09_once_record.
 Print Assumptions C09_order_matters.
